@@ -740,6 +740,14 @@ def stream_sched(run, tier, Q, tf, rng):
         ln["nat_exponent"] = int(exponent)
       lines.append(ln)
       meta.append((s2, f2, exponent, freqs, got))
+      # spot-check of the oracle hypotheses the theorems put on `pw` (monotone on [0,1], 0 -> 0, 1 -> 1)
+      rows = sorted((core.unrj(a), core.unrj(b)) for a, b in ln["table"])
+      ok = all(rows[i][1] <= rows[i + 1][1] for i in range(len(rows) - 1))
+      ok = ok and all((a != 0 or b == 0) and (a != 1 or b == 1) and 0 <= b <= 1 for a, b in rows)
+      run.count("pw_oracle_rows", len(rows))
+      if not ok:
+        run.disagree("pw-oracle-hypothesis", {"start": s2, "finish": f2, "exponent": exponent},
+                     [(float(a), float(b)) for a, b in rows], "monotone, 0->0, 1->1")
   outs = core.run_driver("C07", lines)
   worst = F(0)
   for (s2, f2, exponent, freqs, got), out in zip(meta, outs):
